@@ -308,6 +308,15 @@ func (t *tenv) genStr(d int) J {
 		return eCall(eDot(t.genStr(d-1), m))
 	case 9:
 		sep := []string{",", "-", "", " / "}[r.Intn(4)]
+		if r.Chance(1, 4) {
+			// elements that print as the empty string, at the front, in the middle, at the end, all of them
+			es := [][]interface{}{{eStr(""), eStr("a"), eStr("b")}, {eStr(""), eStr(""), eStr("c")}, {eStr("a"), eStr(""), eStr("")}, {eStr(""), eStr("")},
+				{eStr(""), t.genStr(d - 2), eStr("")}, {eStr("")}}[r.Intn(6)]
+			if r.Bool() {
+				return eCall(eDot(eArr(es...), "join"), eStr(sep))
+			}
+			return eCall(eDot(eCall(eDot(eStr([]string{",x,y", ",,z", "a,,", ","}[r.Intn(4)]), "split"), eStr(",")), "join"), eStr(sep))
+		}
 		if r.Bool() {
 			n, _ := pickKey(t.numArrs, r)
 			return eCall(eDot(eId(n), "join"), eStr(sep))
